@@ -155,6 +155,37 @@ def _parse(res):
         res.coverage[m.group(1)] = (int(m.group(3)), int(m.group(4)))
 
 
+def run_chunks(spec, cfg, recs, path_prefix, env=None, chunk=12000, tag="FAIL", **kw):
+    """Independent records (no cross references) validated in batches: a 60 MB trace file makes one JVM spend its time in
+    the garbage collector.  `tid` is rewritten per batch.  Returns (merged TLCResult, [(record, rest-of-printed-tuple)])."""
+    from .common import dump_ndjson
+
+    total = TLCResult()
+    fails = []
+    for b0 in range(0, len(recs), chunk):
+        part = recs[b0:b0 + chunk]
+        for k, r in enumerate(part):
+            r["tid"] = k + 1
+        tp = "%s.%d.ndjson" % (path_prefix, b0 // chunk)
+        dump_ndjson(tp, part)
+        e = dict(env or {})
+        e["TRACE_FILE"] = tp
+        res = run(spec, cfg, env=e, **kw)
+        os.remove(tp)
+        if res.error or res.distinct != 2 * len(part):
+            raise MachineryError("%s consumed %d of %d records of batch %d (%s)" % (spec, res.distinct // 2, len(part), b0 // chunk, res.error))
+        total.generated += res.generated
+        total.distinct += res.distinct
+        total.wall += res.wall
+        total.depth = max(total.depth, res.depth)
+        total.rc = 0
+        for item in res.printed(tag):
+            fails.append((part[item[0] - 1], item[1:]))
+    for k, r in enumerate(recs):
+        r["tid"] = k + 1
+    return total, fails
+
+
 def sany(spec):
     p = subprocess.run(["java", "-cp", JAR, "tla2sany.SANY", spec], cwd=SPEC, stdout=subprocess.PIPE,
                        stderr=subprocess.STDOUT, text=True)
